@@ -1,6 +1,9 @@
 //! avharness: drives the real autosar-data library with the same request stream the Lean driver answers.
 //! usage: avharness <scenario> --out <dir> [--seed N] [--tier quick|thorough] [--side side.json] [--replay file]
 mod c18;
+mod c19;
+mod evalreq;
+mod rx;
 mod specwalk;
 mod util;
 
@@ -27,9 +30,10 @@ fn main() {
             _ => { i += 1 }
         }
     }
-    let _ = &replay;
     match scenario.as_str() {
         "c18" => c18::run(&out, seed, thorough, &side),
+        "c19" => c19::run(&out, seed, thorough, &side),
+        "eval" => evalreq::run(&out, replay.as_deref().expect("--replay <request file>"), &side),
         _ => {
             eprintln!("unknown scenario {scenario}");
             std::process::exit(2);
